@@ -70,6 +70,16 @@ def call_sigs(s):
     return set(tuple(call_type(k) for k in s["ps"][:n - k]) for k in range(s["nd"] + 1))
 
 
+def wrap_type(k):
+    """CppLibCalls!WrapType"""
+    return "pK0" if k in ("objPtr", "objRef", "objVal") else "pcK0" if k == "constObjRef" else "str" if k in STR_KINDS else k
+
+
+def wrap_sigs(s):
+    n = len(s["ps"])
+    return set(tuple(wrap_type(k) for k in s["ps"][:n - k]) for k in range(s["nd"] + 1))
+
+
 def cpp_name_group(s):
     """key of the C++ name a signature is declared under, or None when the name is unique to the signature"""
     fk = s["fk"]
@@ -169,7 +179,15 @@ class Fn:
         return dict(gid=self.gid, fam=self.fam, sig=self.sig, cname=self.cname, cls=self.cxxcls, sid=self.sid)
 
 
-def ptype(kind, pos, fam):
+CREF_KINDS = ("i32", "u16", "f64", "bool", "i64", "enum")
+
+
+def ptype(kind, pos, fam, sid=0):
+    """C++ spelling of a parameter of spec kind `kind`.  A kind is a value category, not a spelling: simple
+    kinds are also written `const T &` (remapped by ParameterRemapReferenceToConcrete), std::string by value
+    and by const reference; which spelling a parameter gets is a fixed function of (signature id, position)."""
+    if kind in CREF_KINDS and pos and (sid + pos) % 3 == 0:
+        return "const %s &" % CTYPE[kind]
     if kind in CTYPE:
         return CTYPE[kind]
     if kind == "string":
@@ -184,8 +202,17 @@ def rtype(fn):
         return fn.cxxcls + " &"
     k = s["ret"]
     if k == "string":
-        return "std::string"
+        # by value (ParameterRemapBasicStringToString) or by const reference (...RefToString)
+        return "const std::string &" if ret_string_ref(fn) else "std::string"
     return ptype(k, 0, fn.fam)
+
+
+def ret_string_ref(fn):
+    return fn.sig["ret"] == "string" and fn.sig["fk"] in ("method", "static", "free") and fn.sid % 2 == 1
+
+
+def is_virtual(fn):
+    return fn.sig["fk"] in ("method", "cmethod") and fn.sid % 4 == 1
 
 
 def params_text(fn, with_defaults):
@@ -193,7 +220,7 @@ def params_text(fn, with_defaults):
     n = len(s["ps"])
     out = []
     for i, k in enumerate(s["ps"]):
-        t = ptype(k, i + 1, fn.fam)
+        t = ptype(k, i + 1, fn.fam, fn.sid)
         d = ""
         if with_defaults and i >= n - s["nd"]:
             d = " = " + cpp_literal(k, val(k, defval(k, i + 1)))
@@ -215,7 +242,7 @@ def declaration(fn):
         return "%s(%s);" % (fn.cxxcls, params_text(fn, True))
     if fk == "opCast":
         return "operator %s() const;" % rtype(fn)
-    pre = "static " if fk == "static" else ""
+    pre = "static " if fk == "static" else "virtual " if is_virtual(fn) else ""
     post = " const" if const_this(s) else ""
     return "%s%s %s(%s)%s;" % (pre, rtype(fn), fn.cname, params_text(fn, True), post)
 
@@ -284,6 +311,8 @@ def body(fn):
         L.append("return (En)vfrt::enc_enum(m);")
     elif r == "cstr":
         L.append("static std::string hold; return vfrt::enc_cstr(m, hold);")
+    elif r == "string" and ret_string_ref(fn):
+        L.append("static std::string hold; hold = vfrt::enc_string(m); return hold;")
     elif r == "objPtr":
         L.append("return vfrt::enc_ptr(m, cands, nc, true);")
     elif r in ("objRef", "constObjRef"):
@@ -544,7 +573,7 @@ def compatible(a, b):
         return True
     if a["fk"] == "opCast":
         return False
-    return not (call_sigs(a) & call_sigs(b))
+    return not (call_sigs(a) & call_sigs(b)) and not (wrap_sigs(a) & wrap_sigs(b))
 
 
 class Packer:
@@ -625,15 +654,19 @@ class Packer:
 
 
 # ---------------------------------------------------------------------------------------------
+def step_sig(rec, st):
+    """signature of a dumped step: index into rec["lib"], 0 = the constructor K(int) of st["cls"]"""
+    return rec["lib"][st["s"] - 1] if st["s"] else base_ctor_sig(st["cls"])
+
+
 def resolve(rec, bid, fam, fnmap):
     """one dumped behaviour -> executable steps + expected observations (canonical values)"""
     steps = []
-    base = {c: None for c in CLASSES}
     for st in rec["script"]:
         op = st["op"]
-        exp_post = [[p["st"], p["bst"]] if p["live"] else None for p in st["post"]]
+        exp_post = [p if p else None for p in st["post"]]
         if op in ("new", "call"):
-            s = st["sig"]
+            s = step_sig(rec, st)
             fn = fnmap[sig_key(s)]
             kinds = s["ps"][:len(st["args"])]
             args = [val(k, a) for k, a in zip(kinds, st["args"])]
@@ -656,7 +689,12 @@ def resolve(rec, bid, fam, fnmap):
             steps.append((dict(op="upcast", obj=st["obj"], to=st["to"], exp_ret=st["exp"]), exp_post))
         elif op == "del":
             steps.append((dict(op="del", obj=st["obj"], exp_ret=None), exp_post))
-    return dict(b=bid, fam=fam, steps=[s for s, _ in steps], expect=[dict(ret=s["exp_ret"], post=p) for s, p in steps])
+    # WrapC!Required, per generated function: [k, number of wrapper parameters, this first, optional flags]
+    req = {}
+    for r in rec["req"]:
+        fn = fnmap[sig_key(rec["lib"][r["s"] - 1])]
+        req.setdefault(fn.gid, []).append([r["k"], r["np"], r["this"], r["opt"]])
+    return dict(b=bid, fam=fam, steps=[s for s, _ in steps], expect=[dict(ret=s["exp_ret"], post=p) for s, p in steps], req=req)
 
 
 def native_script(behaviours):
